@@ -1,7 +1,10 @@
 package main
 
 import (
+	"fmt"
+	"go/token"
 	"go/types"
+	"sort"
 	"strings"
 
 	"golang.org/x/tools/go/ssa"
@@ -48,15 +51,124 @@ func checkC09(p *Prog, c *Check) {
 		return
 	}
 	c.Floor("C09.roots", len(roots), 10)
-	exempt := map[string]string{
-		"(*app.ShutterApp).maybePersistToDisk|time.Since": "persist timer: value used only to decide whether to write the state file; Commit returns a constant response (checked below)",
-		"(*app.ShutterApp).maybePersistToDisk|time.Now":   "persist timer: stored in LastSaved only, which no ABCI response depends on (checked below)",
-		"(*app.ShutterApp).PersistToDisk|time.Now":        "persist timer bookkeeping",
-	}
-	detScope(p, c, "C09-DET", roots, &detOpts{exempt: exempt})
-	// side conditions of the exemption: Commit returns a constant; LastSaved is read only in maybePersistToDisk
+	// The persist-to-disk timer: wall-clock reads are tolerated only in functions that the ABCI entry
+	// points reach exclusively through Commit (the "commit-only" set), where
+	//  (a) Commit's response is a constant,
+	//  (b) the clock value flows only into comparisons, other time arithmetic, logging and the field
+	//      LastSaved,
+	//  (c) functions of the commit-only set write no replicated state except LastSaved, and
+	//  (d) LastSaved is read only inside the commit-only set (or by logging).
 	cm, err := p.Func("app.ShutterApp.Commit")
-	if c.Must(err) {
+	if !c.Must(err) {
+		return
+	}
+	var others []*ssa.Function
+	for _, r := range roots {
+		if r != cm {
+			others = append(others, r)
+		}
+	}
+	fromOthers := map[*ssa.Function]bool{}
+	for _, f := range p.CG().Reachable(others, nil) {
+		fromOthers[f] = true
+	}
+	commitOnly := map[*ssa.Function]bool{}
+	for _, f := range p.CG().Reachable([]*ssa.Function{cm}, nil) {
+		if !fromOthers[f] && f != cm && inModule(f) {
+			commitOnly[f] = true
+		}
+	}
+	app, _ := p.Named("app.ShutterApp")
+	isLastSaved := func(v ssa.Value) bool {
+		fa, ok := v.(*ssa.FieldAddr)
+		return ok && fieldName(fa.X.Type(), fa.Field) == "LastSaved" && types.Identical(deref(fa.X.Type()), app)
+	}
+	var clockFlowOK func(v ssa.Value, seen map[ssa.Value]bool) (bool, string)
+	clockFlowOK = func(v ssa.Value, seen map[ssa.Value]bool) (bool, string) {
+		if seen[v] {
+			return true, ""
+		}
+		seen[v] = true
+		if v.Referrers() == nil {
+			return true, ""
+		}
+		for _, r := range *v.Referrers() {
+			switch x := r.(type) {
+			case *ssa.DebugRef:
+			case *ssa.Store:
+				if x.Val == v && isLastSaved(x.Addr) {
+					continue
+				}
+				if al, ok := x.Addr.(*ssa.Alloc); ok && x.Val == v && !al.Heap {
+					// spilled to a local (method call on a value receiver): follow its loads
+					if ok2, why := clockFlowOK(al, seen); !ok2 {
+						return false, why
+					}
+					continue
+				}
+				return false, "stored to " + x.Addr.String()
+			case *ssa.BinOp:
+				switch x.Op {
+				case token.LSS, token.LEQ, token.GTR, token.GEQ, token.EQL, token.NEQ:
+					// a comparison only feeds the persist-or-not branch
+					for _, rr := range *x.Referrers() {
+						if _, isIf := rr.(*ssa.If); !isIf {
+							if _, isD := rr.(*ssa.DebugRef); !isD {
+								return false, "comparison result used outside a branch condition"
+							}
+						}
+					}
+				default:
+					if ok, why := clockFlowOK(x, seen); !ok {
+						return false, why
+					}
+				}
+			case *ssa.UnOp:
+				if ok, why := clockFlowOK(x, seen); !ok {
+					return false, why
+				}
+			case ssa.CallInstruction:
+				nm := callName(x)
+				if isSinkOnly(nm) {
+					continue
+				}
+				if strings.HasPrefix(nm, "time.") || strings.HasPrefix(nm, "(time.") {
+					if val := x.Value(); val != nil {
+						if ok, why := clockFlowOK(val, seen); !ok {
+							return false, why
+						}
+					}
+					continue
+				}
+				return false, "passed to " + nm
+			case *ssa.MakeInterface, *ssa.Convert, *ssa.ChangeType:
+				if ok, why := clockFlowOK(x.(ssa.Value), seen); !ok {
+					return false, why
+				}
+			default:
+				return false, fmt.Sprintf("used by %T", r)
+			}
+		}
+		return true, ""
+	}
+	exemptFn := func(fn *ssa.Function, call ssa.CallInstruction, src string) (string, bool) {
+		if src != "time.Now" && src != "time.Since" {
+			return "", false
+		}
+		if !commitOnly[origin(fn)] {
+			return "", false
+		}
+		val := call.Value()
+		if val == nil {
+			return "", false
+		}
+		if ok, _ := clockFlowOK(val, map[ssa.Value]bool{}); !ok {
+			return "", false
+		}
+		return "persist timer: reached from the ABCI entry points only through Commit (constant response); the clock value flows only into comparisons, time arithmetic, logging and LastSaved", true
+	}
+	detScope(p, c, "C09-DET", roots, &detOpts{exemptFn: exemptFn})
+	{
 		fi := p.Info(cm)
 		for _, r := range returnsOf(cm) {
 			flds := fi.structLitFields(r.Results[0])
@@ -65,22 +177,37 @@ func checkC09(p *Prog, c *Check) {
 			c.Result(ok, "C09-DET.exempt", "Commit:constant-response", p.siteOf(r), shortFn(cm), "Commit response", "Commit's response is not the zero ResponseCommit: "+t.s, "zero-value ResponseCommit")
 		}
 	}
-	app, _ := p.Named("app.ShutterApp")
+	// (c) the commit-only functions (and Commit) write no replicated state except LastSaved
+	nw := 0
+	for _, fn := range append([]*ssa.Function{cm}, sortedFns(commitOnly)...) {
+		for _, b := range fn.Blocks {
+			for _, in := range b.Instrs {
+				if !isStateWrite(fn, in) {
+					continue
+				}
+				nw++
+				okW := false
+				if st, isS := in.(*ssa.Store); isS && isLastSaved(st.Addr) {
+					okW = true
+				}
+				c.Result(okW, "C09-DET.exempt", "commit-only-write@"+shortFn(fn)+"|"+writeDesc(p, fn, in), p.siteOf(in), shortFn(fn), "state write in a function only Commit reaches", "a function on the wall-clock-dependent persist path writes state other than LastSaved (the write would happen at different blocks on different replicas)", "only LastSaved")
+			}
+		}
+	}
+	c.Floor("C09-DET.exempt.writes", nw, 1)
 	nr := 0
 	for _, fn := range p.Funcs {
-		fi := p.Info(fn)
 		for _, b := range fn.Blocks {
 			for _, in := range b.Instrs {
 				ld, ok := in.(*ssa.UnOp)
 				if !ok {
 					continue
 				}
-				fa, ok := ld.X.(*ssa.FieldAddr)
-				if !ok || fieldName(fa.X.Type(), fa.Field) != "LastSaved" || !types.Identical(deref(fa.X.Type()), app) {
+				if !isLastSaved(ld.X) {
 					continue
 				}
 				nr++
-				okR := strings.Contains(shortFn(fn), "maybePersistToDisk")
+				okR := commitOnly[origin(fn)] || fn == cm
 				if !okR {
 					// a read that only feeds a logging sink
 					sinkOnly := true
@@ -95,11 +222,11 @@ func checkC09(p *Prog, c *Check) {
 					}
 					okR = sinkOnly
 				}
-				c.Result(okR, "C09-DET.exempt", "LastSaved-read@"+shortFn(fn), p.siteOf(in), shortFn(fn), "read of ShutterApp.LastSaved", "the wall-clock field LastSaved is read outside maybePersistToDisk", "only the persist timer reads it")
-				_ = fi
+				c.Result(okR, "C09-DET.exempt", "LastSaved-read@"+shortFn(fn), p.siteOf(in), shortFn(fn), "read of ShutterApp.LastSaved", "the wall-clock field LastSaved is read outside the functions only Commit reaches", "only the persist timer reads it")
 			}
 		}
 	}
+	c.Floor("C09-DET.exempt.reads", nr, 1)
 	forkHeightsNormalised(p, c, "C09-forks")
 	// validator updates sorted before return
 	vu, err := p.Func("app.Powermap.ValidatorUpdates")
@@ -162,4 +289,13 @@ func forkHeightsNormalised(p *Prog, c *Check, rule string) {
 		c.Result(ok, rule, "ForkHeights-write@"+shortFn(w.Fn), p.siteOf(w.Instr), shortFn(w.Fn), "write of ShutterApp.ForkHeights", "fork heights are installed without the backwards-compatibility migration that the other construction path applies: "+t.s, "migrateForkHeights(...)")
 	}
 	c.Floor(rule, n, 2)
+}
+
+func sortedFns(m map[*ssa.Function]bool) []*ssa.Function {
+	var out []*ssa.Function
+	for f := range m {
+		out = append(out, f)
+	}
+	sort.Slice(out, func(i, j int) bool { return shortFn(out[i]) < shortFn(out[j]) })
+	return out
 }
